@@ -798,6 +798,13 @@ def register(M):
             return GenContext(g)
         return PyCallable(make, f'contextmanager({fn.qualname})')
 
+    # typing helpers that do nothing at run time
+    E['typing.cast'] = lambda it, a, k, n: (a[1] if len(a) > 1 else k.get('val'))
+    E['typing.NewType'] = lambda it, a, k, n: PyCallable(lambda it2, a2, k2, n2: a2[0], f'NewType({a[0]})')
+    E['typing.TypeVar'] = lambda it, a, k, n: ExtRef('typing.TypeVar')
+    for _nm in ('typing.final', 'typing.overload', 'typing.no_type_check', 'typing.runtime_checkable'):
+        E[_nm] = lambda it, a, k, n: a[0]
+
     @ext('types.MappingProxyType')
     def _mapping_proxy(interp, args, kw, node):
         # a read-only live view of the mapping: reads go to the mapping itself (a write through the proxy, a TypeError in Python, is not modelled)
